@@ -39,7 +39,8 @@ class RestoreReadFileSystem:
 
 class RealRestoreReadFileSystem(RestoreReadFileSystem):
     def path_exists(self, path):
-        return os.path.exists(path)
+        # lexists: a dangling symlink occupies the destination too
+        return os.path.lexists(path)
 
 
 @six.add_metaclass(ABCMeta)
